@@ -325,6 +325,12 @@ func (ex *Exec) havocModifies(fi *FuncInfo, m *Clause, st, pre *State, bind map[
 		case "map":
 			st.havocFamily("M|" + typeKey(l.t) + "|")
 			ex.note("modifies on a map havocs all maps of that type")
+		case "family":
+			for _, lf := range leavesOf(l.t) {
+				if strings.HasPrefix(lf.Path, l.prefix) {
+					st.havocFamily(objKey(l.t, lf.Path))
+				}
+			}
 		case "global":
 			nv := freshValue("G|"+l.name, l.t)
 			st.glob[l.name] = nv
@@ -357,6 +363,18 @@ func (ex *Exec) modLoc(e ast.Expr, st *State) []modLoc {
 	switch x := e.(type) {
 	case *ast.ParenExpr:
 		return ex.modLoc(x.X, st)
+	case *ast.CallExpr:
+		if id, ok := x.Fun.(*ast.Ident); ok && id.Name == "every" && len(x.Args) == 1 {
+			// every(p.f): field f of every object of p's type
+			var out []modLoc
+			for _, l := range ex.modLoc(x.Args[0], st) {
+				if l.kind != "obj" {
+					unsupp("every(): %s is not a field of a heap object", ex.src(x.Args[0]))
+				}
+				out = append(out, modLoc{kind: "family", t: l.t, prefix: l.prefix})
+			}
+			return out
+		}
 	case *ast.SliceExpr:
 		sv := ex.eval(x.X, st)
 		s := sv.T.Underlying().(*types.Slice)
@@ -481,6 +499,9 @@ func (ex *Exec) frameCheckObj(t types.Type, ref *Term, prefix string, st *State,
 	for _, l := range locs {
 		if l.kind == "obj" && typeKey(l.t) == typeKey(t) && (strings.HasPrefix(prefix, l.prefix)) {
 			allowed = append(allowed, mkEq(ref, l.ref))
+		}
+		if l.kind == "family" && typeKey(l.t) == typeKey(t) && (strings.HasPrefix(prefix, l.prefix)) {
+			return
 		}
 	}
 	ex.check(st, mkOr(allowed...), "frame", n, "")
